@@ -227,10 +227,11 @@ static std::string step(const std::vector<std::string>& w) {
   }
   if (op == "tobs") {
     const theta_sketch& s = need(tobjs, I(w.at(1))).sk();
+    const std::string line = est_line("T", s);      // both passes make the same calls in the same order
     std::ostringstream st; st << s.get_theta64() << " " << s.get_num_retained() << " " << (s.is_empty() ? 1 : 0);
     if (w.size() == 2) return "S " + st.str();
     if (join_from(w, 2) != st.str()) return "state-mismatch " + st.str();
-    return est_line("T", s);
+    return line;
   }
   // ---------------- tuple
   if (op == "unew") {
@@ -249,11 +250,12 @@ static std::string step(const std::vector<std::string>& w) {
   }
   if (op == "uobs") {
     const auto& s = need(uobjs, I(w.at(1))).sk();
+    const std::string line0 = est_line("U", s);
     std::ostringstream st; st << s.get_theta64() << " " << s.get_num_retained() << " " << (s.is_empty() ? 1 : 0);
     if (w.size() == 2) return "S " + st.str();
     if (w.size() != 6 || w.at(2) + " " + w.at(3) + " " + w.at(4) != st.str()) return "state-mismatch " + st.str();
     const uint32_t sub = (uint32_t)U(w.at(5));
-    std::ostringstream os; os << est_line("U", s);
+    std::ostringstream os; os << line0;
     for (unsigned k = 1; k <= 3; ++k) os << " " << val([&] { return s.get_lower_bound((uint8_t)k, sub); });
     for (unsigned k = 1; k <= 3; ++k) os << " " << val([&] { return s.get_upper_bound((uint8_t)k, sub); });
     return os.str();
@@ -281,10 +283,12 @@ static std::string step(const std::vector<std::string>& w) {
   }
   if (op == "hobs") {
     auto& o = need(hobjs, I(w.at(1)));
+    // outputs first, state second, in BOTH passes: the getters of a union rebuild its gadget's counters (a state change)
+    const std::string line = o.sk ? hll_line(*o.sk) : hll_line(*o.un);
     const std::string st = o.sk ? hll_state(*o.sk) : hll_state(o.un->get_result(HLL_8));
     if (w.size() == 2) return "S " + st;
     if (join_from(w, 2) != st) return "state-mismatch " + st;
-    return o.sk ? hll_line(*o.sk) : hll_line(*o.un);
+    return line;
   }
   // ---------------- cpc
   if (op == "cnew") { cobjs[I(w.at(1))].reset(new cpc_sketch((uint8_t)I(w.at(2)))); return "ok"; }
@@ -296,12 +300,12 @@ static std::string step(const std::vector<std::string>& w) {
   }
   if (op == "cobs") {
     auto& s = need(cobjs, I(w.at(1)));
-    const std::string st = cpc_state(*s);
-    if (w.size() == 2) return "S " + st;
-    if (join_from(w, 2) != st) return "state-mismatch " + st;
     std::ostringstream os; os << "P " << val([&] { return s->get_estimate(); });
     for (unsigned k = 1; k <= 3; ++k) os << " " << val([&] { return s->get_lower_bound(k); });
     for (unsigned k = 1; k <= 3; ++k) os << " " << val([&] { return s->get_upper_bound(k); });
+    const std::string st = cpc_state(*s);
+    if (w.size() == 2) return "S " + st;
+    if (join_from(w, 2) != st) return "state-mismatch " + st;
     return os.str();
   }
   throw std::runtime_error("bad op");
